@@ -256,3 +256,126 @@ def nan_vector(t, like):
                                    'numpy.empty_like'):
         return False
     return None
+
+
+# ----------------------------------------------------------------------------------------------
+# the "lift a 2-D array to 3-D / drop the auxiliary axis again" idiom, in its usual spellings
+def strip_lift(t):
+    """x[:, :, None] / x[..., None] / np.expand_dims(x, 2|-1) / np.atleast_3d(x)  ->  (x, True) ; else (t, False)"""
+    from ..paths import NONE, C
+    FULL = ('slice', NONE, NONE, NONE)
+    ELL = ('c', Ellipsis)
+    if t[0] == 'sub' and t[2] in (('tuple', (FULL, FULL, NONE)), ('tuple', (ELL, NONE))):
+        return t[1], True
+    if t[0] == 'call' and t[1] == 'numpy.expand_dims' and t[2]:
+        ax = dict(t[3]).get('axis', t[2][1] if len(t[2]) > 1 else None)
+        if ax in (C(2), C(-1)):
+            return t[2][0], True
+    if t[0] == 'call' and t[1] == 'numpy.atleast_3d' and len(t[2]) == 1:
+        return t[2][0], True
+    return t, False
+
+
+def strip_unlift(t):
+    """x[:, :, 0] / x[:, :, -1] / x[..., 0] / np.squeeze(x, axis=2|-1) / x.squeeze(axis=2|-1)  ->  (x, True)
+    a subscript / squeeze of another form -> (t, None) (not recognised) ; anything else -> (t, False)"""
+    from ..paths import NONE, C, is_c
+    FULL = ('slice', NONE, NONE, NONE)
+    ELL = ('c', Ellipsis)
+    if t[0] == 'sub':
+        if t[2] in (('tuple', (FULL, FULL, C(0))), ('tuple', (FULL, FULL, C(-1))), ('tuple', (ELL, C(0))), ('tuple', (ELL, C(-1)))):
+            return t[1], True
+        if t[2][0] == 'tuple' and len(t[2][1]) in (2, 3) and is_c(t[2][1][-1]) and isinstance(t[2][1][-1][1], int) \
+                and all(x in (FULL, ELL) for x in t[2][1][:-1]):
+            return t, ('index', t[2][1][-1][1])        # a constant element other than 0 / -1 of the last axis
+        return t, None
+    if t[0] == 'call' and t[1] == 'numpy.squeeze' and t[2]:
+        ax = dict(t[3]).get('axis', t[2][1] if len(t[2]) > 1 else None)
+        if ax in (C(2), C(-1)):
+            return t[2][0], True
+        return t, None
+    if t[0] == 'meth' and t[1] == 'squeeze':
+        ax = dict(t[4]).get('axis', t[3][0] if t[3] else None)
+        if ax in (C(2), C(-1)):
+            return t[2], True
+        return t, None
+    return t, False
+
+
+def lifted_column_loops(e, result):
+    """The idiom "treat a 2-D array as 3-D with a dummy last axis, visit every column (i, j), give the result back in
+    the input's shape", in its two spellings:
+      A (rebinding)  W = lift(X) if X.ndim == 2 ; loops store W[:, i, j] = ... ; result = unlift(W) iff X.ndim == 2
+      B (view)       V = lift(W) if W.ndim == 2 else W (a view) ; loops store V[:, i, j] = ... ; result = W
+    `e` is a returning exit, `result` the returned array term.
+    -> ('ok', info) | ('bad', why) | ('unknown', why) | ('infeasible', '') ; info: name, is2d, entry (term the written array
+    starts as, lift stripped), stores [(outer loop, inner loop, idx, value, body state)]."""
+    from ..paths import subterms, show, NONE, C, S
+    FULL = ('slice', NONE, NONE, NONE)
+    core, unlift = strip_unlift(result)
+    if isinstance(unlift, tuple):
+        return 'bad', 'element %d of the auxiliary axis (length one) is taken: IndexError for every 2-D input' % unlift[1]
+    if unlift is None:
+        return 'unknown', 'result %s' % show(result)[:60]
+    if not (core[0] == 's' and '@F' in core[1]):
+        return 'unknown', 'result %s is not an array filled in a loop' % show(result)[:60]
+    name = core[1].split('@')[0]
+    is2d = None
+    for cd, tr, ln in e.state.conds:
+        if cd[0] == 'cmp' and cd[1] in ('==', '!=') and cd[3] == C(2) and cd[2][0] == 'attr' and cd[2][2] == 'ndim':
+            v = (cd[1] == '==') == tr
+            if is2d is not None and is2d != v:
+                return 'infeasible', ''
+            is2d = v
+    stores = []
+    wname = None
+    outer_for = None
+    for ls in e.state.loops:
+        if ls.kind != 'for':
+            continue
+        for kind, b in ls.body_states:
+            for l2 in b.loops:
+                if l2.kind != 'for' or l2.node is ls.node:
+                    continue
+                for k2, b2 in l2.body_states:
+                    for f in b2.effects:
+                        if f[0] != 'setitem' or not f[5]:
+                            continue
+                        if f[5] == name or b2.alias.get('view:' + f[5]) == name:
+                            stores.append((ls, l2, f[2], f[3], b2))
+                            wname = f[5]
+                            outer_for = ls
+    if not stores:
+        return 'unknown', 'no column store into %s found in a nested loop' % name
+    if is2d is None:
+        return 'unknown', 'no test of the number of dimensions on this path'
+    ent = outer_for.entry_env.get(wname)
+    if ent is None:
+        return 'bad', 'the array %s is written before it is created (NameError for every input)' % wname
+    ent0, lifted = strip_lift(ent)
+    if ent0[0] == 'call' and ent0[1] in ('numpy.zeros_like', 'numpy.empty_like', 'numpy.ones_like',
+                                          'numpy.full_like') and ent0[2]:
+        # a fresh array allocated like P has the rank of P (and may be lifted itself afterwards)
+        proto, pl = strip_lift(ent0[2][0])
+        lifted = lifted or pl
+        ent0 = ('alloc_like', proto)
+    if lifted != is2d:
+        return 'bad', ('a 2-D array is indexed with three indices without the auxiliary axis' if is2d
+                       else 'a 3-D array is given a fourth axis')
+    if wname == name:
+        if unlift != is2d:
+            return 'bad', ('for 2-D input the result keeps the auxiliary third axis (shape [samples, imfs, 1])' if is2d
+                           else 'for 3-D input the last axis of the result is dropped')
+    else:
+        if unlift:
+            return 'bad', 'the result was filled through a view and is then indexed [:, :, 0] although it never had a third axis'
+    for ls, l2, idx, val, b2 in stores:
+        if idx != ('tuple', (FULL, ls.var, l2.var)):
+            return 'bad', 'column (%s, %s) is stored at %s' % (show(ls.var), show(l2.var), show(idx)[:40])
+        for lsx, axn in ((ls, 1), (l2, 2)):
+            it = lsx.iter_term
+            okr = it[0] == 'call' and it[1] == 'builtins.range' and len(it[2]) == 1 and it[2][0][0] == 'sub' \
+                and it[2][0][2] == C(axn) and it[2][0][1][0] == 'attr' and it[2][0][1][2] == 'shape'
+            if not okr:
+                return 'bad', 'the loop over axis %d runs over %s' % (axn, show(it)[:60])
+    return 'ok', {'name': name, 'wname': wname, 'is2d': is2d, 'entry': ent0, 'stores': stores}
